@@ -273,7 +273,13 @@ func visitInstr(fr *frame, instr ssa.Instruction) continuation {
 		fr.get(instr.Chan).(chan value) <- fr.get(instr.X)
 
 	case *ssa.Store:
-		store(mustDeref(instr.Addr.Type()), fr.get(instr.Addr).(*value), fr.get(instr.Val))
+		if sp, ok := fr.get(instr.Addr).(*symElemPtr); ok {
+			// store through a symbolic index: fork over the index values
+			k := int(curPC.concretize(sp.idx))
+			sp.cells[k] = fr.get(instr.Val)
+		} else {
+			store(mustDeref(instr.Addr.Type()), fr.get(instr.Addr).(*value), fr.get(instr.Val))
+		}
 
 	case *ssa.If:
 		succ := 1
